@@ -171,4 +171,8 @@ def _one(args, base_seed: int) -> int:
 
 
 if __name__ == "__main__":
-    sys.exit(main())
+    _rc = main()
+    # skip interpreter finalisation: abandoned engine generators print "Exception ignored" noise at shutdown
+    sys.stdout.flush()
+    sys.stderr.flush()
+    os._exit(_rc if isinstance(_rc, int) else 0)
